@@ -93,17 +93,17 @@ Definition rk_by_rank (pool : list Z) (perm : list nat) (nodes : list Z) : list 
   rk_isort (fun id => - rk_sortkey pool perm id) nodes.     (* descending: less(i,j) = key_i > key_j *)
 
 (* ------------------------------------------------------------------------------------------ *)
-(* 3. Which seed the stored permutation belongs to.
+(* 3. Which call the stored permutation belongs to.
       SetRandomSeed(seed, n): no-op when the round already has a (non-zero) seed;
-      SetRandomSeedForNotarizedBlock(seed, n): always.  State = (RandomSeed, seed the
-      permutation was computed from). *)
-Record rs_state := { rs_seed : Z; rs_permseed : option Z }.
-Definition rs_init : rs_state := {| rs_seed := 0; rs_permseed := None |}.
-Inductive rs_op := RsSet (seed : Z) | RsSetNotarized (seed : Z).
+      SetRandomSeedForNotarizedBlock(seed, n): always.  Both recompute the permutation from
+      (seed, n).  State = (RandomSeed, the (seed, miner count) the permutation was computed from). *)
+Record rs_state := { rs_seed : Z; rs_permkey : option (Z * Z) }.
+Definition rs_init : rs_state := {| rs_seed := 0; rs_permkey := None |}.
+Inductive rs_op := RsSet (seed n : Z) | RsSetNotarized (seed n : Z).
 Definition rs_step (s : rs_state) (o : rs_op) : rs_state :=
   match o with
-  | RsSet seed => if Z.eqb (rs_seed s) 0 then {| rs_seed := seed; rs_permseed := Some seed |} else s
-  | RsSetNotarized seed => {| rs_seed := seed; rs_permseed := Some seed |}
+  | RsSet seed n => if Z.eqb (rs_seed s) 0 then {| rs_seed := seed; rs_permkey := Some (seed, n) |} else s
+  | RsSetNotarized seed n => {| rs_seed := seed; rs_permkey := Some (seed, n) |}
   end.
 Definition rs_run (ops : list rs_op) : rs_state := fold_left rs_step ops rs_init.
 
